@@ -192,8 +192,9 @@ var pluginsProto = []struct {
 func withinBounds(c *CfgCase) bool {
 	switch c.Plugin {
 	case "sleep":
-		if len(c.Args) >= 1 {
-			switch c.Args[0] {
+		// any argument may turn out to be a duration the handler sleeps for
+		for _, a := range c.Args {
+			switch a {
 			case "1000000h", "2540400h", "3600s", "1h", "60s", "1500ms", "1h30m15.5s", "4294967296s":
 				return false
 			}
